@@ -9,6 +9,7 @@ import (
 	"reflect"
 	"strconv"
 	"strings"
+	"sync"
 
 	"src.elv.sh/pkg/eval"
 	"src.elv.sh/pkg/parse"
@@ -192,6 +193,11 @@ func materialise(mods []Mod) (*world, error) {
 
 func (w *world) close() { os.RemoveAll(w.root) }
 
+// cwdMu serialises the process-wide working directory: an operation from non-file code sets it and
+// holds the lock exclusively while it runs; operations from files run under the shared lock, with
+// whatever directory the last non-file operation (of any world) left behind.
+var cwdMu sync.RWMutex
+
 // do runs one top-level use and reports what happened.
 func (w *world) do(o TopOp) (OpRec, string) {
 	w.log = []LogEv{}
@@ -200,9 +206,15 @@ func (w *world) do(o TopOp) (OpRec, string) {
 	src := parse.Source{Name: "[c22]", Code: code}
 	if o.File {
 		src = parse.Source{Name: filepath.Join(dir, "main.elv"), Code: code, IsFile: true}
-		os.Chdir(w.root) // never the directory a relative import should resolve against
-	} else if err := os.Chdir(dir); err != nil {
-		return OpRec{}, "chdir: " + err.Error()
+		cwdMu.RLock()
+		defer cwdMu.RUnlock()
+	} else {
+		cwdMu.Lock()
+		defer cwdMu.Unlock()
+		if err := os.Chdir(dir); err != nil {
+			return OpRec{}, "chdir: " + err.Error()
+		}
+		defer os.Chdir("/")
 	}
 	pan := ""
 	var err error
@@ -246,7 +258,6 @@ func replayBehaviour(c *lib.Ctx, beh Behaviour) {
 		panic(fmt.Sprintf("materialise: %v", err))
 	}
 	defer w.close()
-	defer os.Chdir("/")
 	if heavy(beh) {
 		c.Distinct(beh.key())
 	}
@@ -294,7 +305,6 @@ func record(c *lib.Ctx, mods []Mod, ops []TopOp) []Case {
 		panic(fmt.Sprintf("materialise: %v", err))
 	}
 	defer w.close()
-	defer os.Chdir("/")
 	out := []Case{{Kind: "reset", World: mods, Op: TopOp{Dir: []string{}, Spec: Spec{Segs: []string{}}}, Res: Exc{K: "none"}, Log: []LogEv{}, Evals: []int{}}}
 	beh := Behaviour{World: mods}
 	for _, o := range ops {
